@@ -56,6 +56,7 @@ def cases(tier):
             for via in ("api", "cli"):
                 yield ("fault", model, layout, via)
     yield ("syntaxlines",)
+    yield ("nested",)
 
 
 def _run_render(case):
@@ -634,8 +635,99 @@ def _run_syntaxlines(case):
     return {"evals": evals, "nontrivial": evals, "judged": judged, "viols": viols[:20], "outcomes": outcomes, "sample": sample, "states": 0, "transitions": 0}
 
 
+NESTED = ("L", [[1, 2], [3, [4, 5]], [6]])
+
+
+def _run_nested(case):
+    """lists inside lists, as Program.from_source records them (ListArgument.lineno = the line on which that list opens, list_linenos = the
+    line on which each item starts, at every depth): every way of starting the value, each inner list and each number on the same or on a
+    new line (2^11 layouts of one nested value)"""
+    from mpilot.arguments import ListArgument
+    from mpilot.program import Program
+
+    viols, outcomes = [], {}
+    evals = judged = 0
+    sample = None
+    # flatten the value into tokens; a "gap" precedes every token that starts a list or a number
+    toks = []
+
+    def flat(v):
+        if isinstance(v, list):
+            toks.append(("open", None))
+            for i, x in enumerate(v):
+                if i:
+                    toks.append(("comma", None))
+                flat(x)
+            toks.append(("close", None))
+        else:
+            toks.append(("num", v))
+
+    flat(NESTED[1])
+    gaps = [i for i, t in enumerate(toks) if t[0] in ("open", "num")]
+    for bits in range(2 ** len(gaps)):
+        line = 2
+        out = ["X = Echo(\n    %s =" % NESTED[0]]
+        starts = {}
+        for i, (kind, v) in enumerate(toks):
+            if i in gaps:
+                if bits >> gaps.index(i) & 1:
+                    out.append("\n        ")
+                    line += 1
+                else:
+                    out.append(" ")
+                starts[i] = line
+            out.append({"open": "[", "close": "]", "comma": ","}.get(kind, str(v)))
+        out.append("\n)\n")
+        text = "".join(out)
+        # expected tree of (open line, [item start lines], [children])
+        pos = [0]
+
+        def want():
+            i = pos[0]
+            node = {"line": starts[i], "items": [], "kids": []}
+            pos[0] += 1
+            while toks[pos[0]][0] != "close":
+                if toks[pos[0]][0] == "comma":
+                    pos[0] += 1
+                    continue
+                node["items"].append(starts[pos[0]])
+                if toks[pos[0]][0] == "open":
+                    node["kids"].append(want())
+                else:
+                    node["kids"].append(None)
+                    pos[0] += 1
+            pos[0] += 1
+            return node
+
+        exp = want()
+        evals += 1
+        tag = {"text": text}
+        sample = tag
+        try:
+            prog = Program.from_source(text, libraries=("mc.vlib.echo",))
+            arg = prog.commands["X"].arguments[0] if isinstance(prog.commands["X"].arguments, (list, tuple)) else prog.commands["X"].arguments[NESTED[0]]
+        except Exception as exc:
+            outcomes["nested:not-loaded:" + type(exc).__name__] = outcomes.get("nested:not-loaded:" + type(exc).__name__, 0) + 1
+            continue  # (acceptance is C10's business)
+        judged += 1
+
+        def got(a):
+            if not isinstance(a, ListArgument):
+                return None
+            return {"line": a.lineno, "items": list(a.list_linenos or []), "kids": [got(x) for x in a.value]}
+
+        g = got(arg)
+        if g != exp:
+            viols.append(V("C11:program:nested-list-lines-wrong", "nested list lines recorded %r, true lines %r" % (g, exp), **tag))
+        k = "nested:%s" % ("ok" if g == exp else "wrong")
+        outcomes[k] = outcomes.get(k, 0) + 1
+    return {"evals": evals, "nontrivial": evals, "judged": judged, "viols": viols[:20], "outcomes": outcomes, "sample": sample, "states": 0, "transitions": 0}
+
+
 def run(case):
     case = tuple(case)
+    if case[0] == "nested":
+        return _run_nested(case)
     if case[0] == "syntaxlines":
         return _run_syntaxlines(case)
     if case[0] == "render":
